@@ -35,6 +35,7 @@ type Variant struct {
 	Shuffled bool `json:"shuffled,omitempty"` // the datasource returns every history unsorted (even positions ascending, then odd positions descending)
 	Suffix   bool `json:"suffix,omitempty"`   // the parent versions handed over start at the first deleted parent version after the first one (at the second version when none is deleted)
 	Twice    bool `json:"twice,omitempty"`    // the library is called twice on the same parents and datasource; the second result is judged
+	Prefix   bool `json:"prefix,omitempty"`   // the parents were annotated before when their last version did not exist yet (same objects, same datasource); then all versions are annotated and judged
 	Retry    bool `json:"retry,omitempty"`    // a first call on the same parents fails (history of the first child withheld), then the judged call follows
 	Explicit bool `json:"explicit,omitempty"` // the documented defaults are passed explicitly: Threshold(30 min), IgnoreInconsistency(false), IgnoreMissingChildren(false), ChildFilter(nil)
 	Polygon  bool `json:"polygon,omitempty"`  // relation parents are tagged type=multipolygon and their members carry the roles outer / inner
@@ -79,7 +80,7 @@ func (v Variant) class() string {
 		return "parent-suffix"
 	case v.Late > 0:
 		return "late-child-history"
-	case v.Twice || v.Retry:
+	case v.Twice || v.Retry || v.Prefix:
 		return "second-call"
 	case v.Polygon:
 		return "multipolygon-parent"
